@@ -240,6 +240,20 @@ PROPS["C08"] = {
     "assumptions": [TIME_RANGE, "riyazali's ResultText passes a NULL pointer for the empty string (modelled: SQLite then returns NULL)", "engine-only harness (package sqlite)"],
 }
 
+PROPS["C20"] = {
+    "harnesses": [
+        {"pkg": ".", "dir": "s3db", "entry": "VerifH_C20_args", "no_native": True, "reach": ["end", "accepted"],
+         "quick": {"params": "maxargs=2,maxval=1", "workers": 16, "timeout": 1200},
+         "thorough": {"params": "maxargs=3,maxval=2", "workers": 16, "timeout": 6000}},
+        {"pkg": ".", "dir": "s3db", "entry": "VerifH_C20_schema", "no_native": True, "reach": ["end", "accepted"],
+         "quick": {"workers": 16, "timeout": 1200}},
+    ],
+    "bounds": {"quick": "New: 1..2 arguments, option name from the seven documented ones plus misspelt/empty/upper-case ones, with or without '=', value an arbitrary byte string of 0..1 bytes; convertSchema, OpenKV and the unquoting parser stubbed nondeterministically. convertSchema: parsed schemas of 1..3 columns (names from {a,b,c}, type / NOT NULL / UNIQUE / DEFAULT flags) and a primary-key list of 0..2 names",
+               "thorough": "1..3 arguments, values 0..2 bytes"},
+    "outside": "the regexp-combinator grammar (sql.Schema, UnquoteAll: quoting of names and values) and how SQLite parses the declared CREATE TABLE text; NOT NULL enforcement is a C06 matter",
+    "assumptions": ["engine-only: the stubs cannot be installed natively"],
+}
+
 # Properties not (yet) claimed, each with the reason.  Kept current by hand.
 NOT_APPLICABLE = {
     "C%02d" % i: "check not built yet in this session (breadth-first build order, DESIGN §9); no claim is made" for i in range(1, 21)
